@@ -350,6 +350,7 @@ type SpecFn struct {
 	BodyText  string
 	Opaque    bool
 	Recursive bool
+	Ghost     bool // mutable ghost state: a map from the (single) argument to the result, kept in the heap
 	File      string
 }
 
@@ -386,12 +387,12 @@ type SpecFile struct {
 }
 
 var clauseKeywords = map[string]bool{
-	"func": true, "spec": true, "lemma": true, "axiom": true, "global": true, "type": true, "extern": true,
+	"func": true, "spec": true, "ghost": true, "lemma": true, "axiom": true, "global": true, "type": true, "extern": true,
 	"requires": true, "ensures": true, "assigns": true, "loop": true, "invariant": true,
 	"use": true, "split": true, "reveal": true, "inline": true, "induction": true, "trigger": true,
 	"unroll": true, "assert": true, "inst": true, "nounfold": true, "unfold": true, "timeout": true,
 	"bounded": true, "havocs": true, "pure": true, "reads": true, "modifies": true, "decreases": true,
-	"effects": true, "case": true, "fuel": true, "assertret": true, "splitret": true, "mapentries": true, "dyntype": true, "witness-gen": true, "defines": true, "establishes": true, "instdepth": true, "useret": true, "initphase": true, "note": true,
+	"effects": true, "case": true, "fuel": true, "assertret": true, "splitret": true, "mapentries": true, "dyntype": true, "witness-gen": true, "defines": true, "establishes": true, "instdepth": true, "useret": true, "initphase": true, "note": true, "trusted": true, "logged": true,
 }
 
 // ParseSpecFile reads a contract file. Lines of interest start with "//@" (in .go files) or are
@@ -475,16 +476,16 @@ func ParseSpecFile(path string, pkgPath string) (*SpecFile, error) {
 				}
 			}
 			sf.Funcs = append(sf.Funcs, curF)
-		case "spec":
+		case "spec", "ghost":
 			curF, curL, curLem = nil, nil, nil
-			// spec func name(params) ret [opaque] [recursive] = body
+			// spec func name(params) ret [opaque] [recursive] = body   |   ghost name(param) ret
 			r := strings.TrimSpace(strings.TrimPrefix(rest, "func"))
 			eq := strings.Index(r, " = ")
 			sig, body := r, ""
 			if eq >= 0 {
 				sig, body = r[:eq], r[eq+3:]
 			}
-			fn := &SpecFn{File: path}
+			fn := &SpecFn{File: path, Ghost: kw == "ghost"}
 			for _, fl := range []string{"opaque", "recursive"} {
 				if strings.HasSuffix(strings.TrimSpace(sig), " "+fl) {
 					sig = strings.TrimSuffix(strings.TrimSpace(sig), " "+fl)
@@ -514,6 +515,9 @@ func ParseSpecFile(path string, pkgPath string) (*SpecFile, error) {
 				return nil, perr(l, "spec func needs exactly one result type")
 			}
 			fn.Ret = rets[0].Type
+			if fn.Ghost && (len(params) != 1 || body != "") {
+				return nil, perr(l, "ghost NAME(key T) R: exactly one key, no body")
+			}
 			if body != "" {
 				e, err := ParseExpr(body)
 				if err != nil {
